@@ -13,7 +13,7 @@
 (* CONSTANT Model selects the family, Geoms the geometries <<columns,lines>>. *)
 EXTENDS Decl, Json
 
-CONSTANTS Model, Geoms, EmitVectors, TextLen
+CONSTANTS Model, Geoms, EmitVectors, TextLen, SgrMax, ModeMax
 
 VARIABLES setup, pre, ev, post, phase
 vars == <<setup, pre, ev, post, phase>>
@@ -52,6 +52,11 @@ Fill(c, l) == FillRows(c, AllRowsSeq(l)) \o << Ev("sgr", <<0>>) >>
 FillWide(c, l) ==
   Fill(c, l) \o << Ev("cup", <<1, 1>>), EvS("draw", <<WIDE>>) >>
   \o (IF l >= 2 /\ c >= 2 THEN << Ev("cup", <<2, 1>>), EvS("draw", <<WIDE>>), Ev("cup", <<2, 1>>), EvS("draw", <<113>>) >> ELSE <<>>)
+\* edits of the tab stops at representative columns (C18w)
+TabEdits(c) == { <<>>, <<Ev("tbc", <<3>>)>>, <<Ev("cha", <<9>>), Ev("tbc", <<0>>)>>, <<Ev("cha", <<c>>), Ev("hts", <<>>)>>,
+                 <<Ev("cha", <<4>>), Ev("hts", <<>>)>>, <<Ev("cha", <<c - 1>>), Ev("hts", <<>>)>>, <<Ev("cha", <<17>>), Ev("tbc", <<>>)>> }
+ColsOfInterest(c) == { x \in 0..(c + 8) : (c <= 20 /\ x <= 20) \/ x % 16 \in {0, 7, 8} \/ (x >= c - 2 /\ x <= c) }
+
 \* operations between saves and restores (C14)
 SaveOps == { <<>>, <<Ev("decsc", <<>>)>>, <<Ev("cup", <<2, 2>>), Ev("sgr", <<1, 31>>)>>, <<Ev("cud", <<9>>), Ev("cuf", <<9>>), EvS("draw", <<113>>)>>,
              <<Ev("so", <<>>), [Ev("charset", <<40>>) EXCEPT !.s = <<85>>]>>, <<EvM("sm", <<6>>, TRUE), EvM("rm", <<7, 25>>, TRUE)>>,
@@ -77,6 +82,14 @@ Families ==
                    h |-> SetRegion(m) \o SetOrigin(d) \o PlaceWrap(g[1], m, d, y, x, 122)] :
                    m \in Regions(g[2]), d \in BOOLEAN,
                    y \in 0..(g[2] - 1), x \in 0..g[1] } : g \in Geoms }
+    [] Model = "C18w" ->
+         \* widths up to 140, default stops edited by HTS / TBC at representative columns, then a width change
+         UNION { { [c |-> g[1], l |-> g[2],
+                   h |-> e1 \o e2 \o rz \o <<Ev("cha", <<x + 1>>)>>] :
+                   e1 \in TabEdits(g[1]), e2 \in { <<>>, <<Ev("cha", <<g[1] - 3>>), Ev("hts", <<>>)>> },
+                   rz \in { <<>>, <<Ev("resize", <<-1, Max2(1, g[1] - 7)>>)>>, <<Ev("resize", <<-1, g[1] + 9>>)>>,
+                            <<EvM("sm", <<3>>, TRUE)>>, <<EvM("sm", <<3>>, TRUE), EvM("rm", <<3>>, TRUE)>> },
+                   x \in ColsOfInterest(g[1]) } : g \in Geoms }
     [] Model \in {"C06", "C07", "C13"} ->
          UNION { { [c |-> g[1], l |-> g[2],
                    h |-> (IF sparse THEN FillSparse(g[1], g[2]) ELSE Fill(g[1], g[2])) \o <<Ev("sgr", <<44, 1>>)>>
@@ -146,6 +159,8 @@ GQuick == GTiny \cup GSmall
 GThorough == GTiny \cup GSmall \cup GMore
 GRows  == { <<3, 1>>, <<3, 2>>, <<3, 3>>, <<3, 4>>, <<2, 5>> }
 GRowsQuick == { <<3, 1>>, <<3, 2>>, <<3, 3>>, <<2, 4>> }
+GWide  == { <<9, 1>>, <<17, 1>>, <<20, 2>>, <<80, 1>>, <<132, 1>>, <<140, 1>> }
+GWideQuick == { <<9, 1>>, <<20, 1>>, <<80, 1>> }
 GCols  == { <<1, 2>>, <<2, 2>>, <<3, 2>>, <<4, 2>>, <<5, 2>>, <<6, 2>> }
 
 -----------------------------------------------------------------------------
@@ -154,7 +169,7 @@ GCols  == { <<1, 2>>, <<2, 2>>, <<3, 2>>, <<4, 2>>, <<5, 2>>, <<6, 2>> }
 Alphabet == {120, WIDE, COMB, ZWSP, 0, 127, NARROW2}
 Texts == { <<a>> : a \in Alphabet } \cup { <<a, b>> : a \in Alphabet, b \in Alphabet }
          \cup (IF TextLen >= 3 THEN { <<a, b, c>> : a \in Alphabet, b \in Alphabet, c \in {120, WIDE, COMB} } ELSE {})
-ModeNumbers == (0..40) \cup {96, 160, 192, 224, 800, 1049, 2004, 9999}
+ModeNumbers == (0..ModeMax) \cup {96, 160, 192, 224, 800, 1049, 2004, 9999}
 DrawCps == (0..255) \cup {256, 9472, WIDE}
 
 MoveEvents(s) ==
@@ -164,14 +179,14 @@ MoveEvents(s) ==
   \cup { Ev("bs", <<>>), Ev("cr", <<>>) }
 Events(s) ==
   CASE Model = "C05" -> MoveEvents(s)
-    [] Model = "C18" -> { Ev("ht", <<>>), Ev("hts", <<>>) } \cup { Ev("tbc", <<n>>) : n \in {-1, 0, 1, 2, 3, 4, 9999} }
+    [] Model \in {"C18", "C18w"} -> { Ev("ht", <<>>), Ev("hts", <<>>) } \cup { Ev("tbc", <<n>>) : n \in {-1, 0, 1, 2, 3, 4, 9999} }
     [] Model = "C06" -> { Ev(op, <<>>) : op \in {"ind", "lf", "ri"} }
                         \cup { Ev(op, <<n>>) : op \in {"il", "dl"}, n \in Params(s.L) }
                         \cup { Ev("decstbm", <<a, b>>) : a \in Params(s.L), b \in Params(s.L) }
     [] Model = "C07" -> { Ev(op, <<n>>) : op \in {"ed", "el"}, n \in {-1, 0, 1, 2, 3, 4, 5, 9999} }
                         \cup { Ev("ech", <<n>>) : n \in Params(s.C) }
     [] Model = "C13" -> { Ev(op, <<n>>) : op \in {"ich", "dch"}, n \in Params(s.C) }
-    [] Model = "C08" -> { Ev("sgr", <<n>>) : n \in 0..110 } \cup { Ev("sgr", <<n>>) : n \in {255, 256, 1000, 9999} }
+    [] Model = "C08" -> { Ev("sgr", <<n>>) : n \in 0..SgrMax } \cup { Ev("sgr", <<n>>) : n \in {255, 256, 1000, 9999} }
                         \cup { Ev("sgr", <<>>) }
                         \cup { Ev("sgr", <<k, 5, n>>) : k \in {38, 48}, n \in {0, 1, 7, 8, 15, 16, 17, 51, 100, 231, 232, 244, 255, 256, 300, 9999} }
                         \cup { Ev("sgr", <<k, 2, a, b, 7>>) : k \in {38, 48}, a \in {0, 18, 255, 256}, b \in {0, 255, 300} }
@@ -192,7 +207,7 @@ Events(s) ==
 
 Decl(s, e, t) ==
   CASE Model = "C05" -> Decl_C05(s, e, t)
-    [] Model = "C18" -> Decl_C18(s, e, t)
+    [] Model \in {"C18", "C18w"} -> Decl_C18(s, e, t)
     [] Model = "C06" -> Decl_C06(s, e, t)
     [] Model = "C07" -> Decl_C07(s, e, t)
     [] Model = "C13" -> Decl_C13(s, e, t)
@@ -228,14 +243,17 @@ Next ==
 
 Spec == Init /\ [][Next]_vars
 
+\* the property a model belongs to
+PropOf == IF Model = "C18w" THEN "C18" ELSE Model
+
 \* Spec |= P : the declarative reading holds on every transition of the family
 Holds == phase = 1 => Decl(pre, ev, post)
 \* the specification never leaves the well-formed states, and its own dirty marking satisfies C17
 WellFormedInv == phase = 1 => WellFormedCore(post) /\ DirtyOK(post)
 DirtyInv == phase = 1 => Decl_C17(pre, ev, post)
 \* the deterministic step predicate used on the implementation accepts the specification's own step
-SelfInv == phase = 1 => (InScope(Model, pre, ev) =>
-              Bad(Model, pre, ev, post, IF ev.op = "display" THEN Render(pre, WmModel) ELSE <<>>) = {})
+SelfInv == phase = 1 => (InScope(PropOf, pre, ev) =>
+              Bad(PropOf, pre, ev, post, IF ev.op = "display" THEN Render(pre, WmModel) ELSE <<>>) = {})
 
 \* one replayable vector per transition
 Emit == (phase = 1 /\ EmitVectors) =>
